@@ -51,11 +51,11 @@ func runC06(w *World, r *Report) {
 	orderRule(w, r)
 	// an encoder that sizes its buffer from a stored length is only as right as that length is at the moment of
 	// encoding (a child that grew after it was added): the C02 rule
-	r.Rule("wirelen", "the declared length each encoder puts on the wire (and sizes its buffer by) equals the bytes the element occupies at the moment of encoding (the C02 rule)", 34)
+	r.Rule("wirelen", "the declared length each encoder puts on the wire (and sizes its buffer by) equals the bytes the element occupies at the moment of encoding (the C02 rule)", 25)
 	if ak, ik, ok := elementKinds(w); ok {
 		runWirelen(w, r, ak, ik)
 	}
-	r.Rule("errfail", "in the codecs a failed step fails the whole: the branch for a non-nil error returns a non-nil error (no log-and-continue that leaves an element out while sizes still count it)", 100)
+	r.Rule("errfail", "in the codecs a failed step fails the whole: the branch for a non-nil error returns a non-nil error (no log-and-continue that leaves an element out while sizes still count it)", 50)
 	errFailRule(w, r, "errfail", func(fi *FuncInfo) bool {
 		n := fi.Pkg.Types.Name()
 		return n == "openflow13" || n == "protocol" || n == "common"
